@@ -147,40 +147,20 @@ theorem withdraw_no_dilution {W U : Nat} {m m' : Market} {w : WithdrawParams} {p
 theorem side_holdings {W : Nat} {m m' : Market} {d : DepositParams} {isLong : Bool} {pv : Nat} {r : SideResult}
     (f : SideFacts W m m' d isLong pv r) :
     m'.holdings isLong = m.holdings isLong + (if isLong then d.long else d.short) ∧
-    m'.holdings (!isLong) = m.holdings (!isLong) := by
-  unfold Market.holdings
-  have := f.amount; have := f.liq_same; have := f.liq_opp; have := f.imp_same; have := f.imp_opp
-  have := f.fee_same; have := f.fee_opp
-  constructor <;> omega
+    m'.holdings (!isLong) = m.holdings (!isLong) := Lem.side_holdings f
 
 /-- a successful deposit increases the holdings (liquidity + swap impact + claimable fees) of each
 token by exactly the deposited amount and the supply by the minted amount. -/
 theorem deposit_holdings {W U : Nat} {m m' : Market} {d : DepositParams} {pin : PerpIn} {t : DepositTrace}
     (h : deposit W U m d pin = (m', .ok t)) :
-    m'.holdings true = m.holdings true + d.long ∧ m'.holdings false = m.holdings false + d.short := by
-  have f := deposit_spec h
-  obtain ⟨mL, mS, hl, hl0, hsh, hs0, hm', _⟩ := f.sides
-  have e' : ∀ b, m'.holdings b = mS.holdings b := by intro b; rw [hm']; rfl
-  have hL : mL.holdings true = m.holdings true + d.long ∧ mL.holdings false = m.holdings false := by
-    by_cases hz : d.long = 0
-    · obtain ⟨e1, _⟩ := hl0 hz; rw [e1, hz]; simp
-    · have := side_holdings (hl hz); simpa using this
-  have hS : mS.holdings false = mL.holdings false + d.short ∧ mS.holdings true = mL.holdings true := by
-    by_cases hz : d.short = 0
-    · obtain ⟨e1, _⟩ := hs0 hz; rw [e1, hz]; simp
-    · have := side_holdings (hsh hz); simpa using this
-  rw [e' true, e' false]; omega
+    m'.holdings true = m.holdings true + d.long ∧ m'.holdings false = m.holdings false + d.short :=
+  Lem.deposit_holdings h
 
 /-- a successful withdrawal decreases the holdings of each token by exactly the amount paid out. -/
 theorem withdraw_holdings {W U : Nat} {m m' : Market} {w : WithdrawParams} {pin : PerpIn} {r : WithdrawReport}
     (h : withdraw W U m w pin = (m', .ok r)) :
-    m'.holdings true + r.longOut = m.holdings true ∧ m'.holdings false + r.shortOut = m.holdings false := by
-  have f := withdraw_spec h
-  unfold Market.holdings
-  simp only [Pool.amount, if_true, Bool.false_eq_true, if_false]
-  have := f.liq_long; have := f.liq_short; have := f.fee_long; have := f.fee_short
-  rw [f.impact]
-  constructor <;> omega
+    m'.holdings true + r.longOut = m.holdings true ∧ m'.holdings false + r.shortOut = m.holdings false :=
+  Lem.withdraw_holdings h
 
 /-! ### the round trip -/
 
@@ -275,31 +255,8 @@ theorem deposit_frame {W U : Nat} {m m₁ : Market} {d : DepositParams} {pin : P
     m₁ = { m with primary := m₁.primary, swapImpact := m₁.swapImpact, fee := m₁.fee, viSwaps := m₁.viSwaps,
                   supply := m₁.supply } ∧
     m₁.primary.long = m.primary.long + (t.long.netAmount + t.long.fees.pool + t.short.positiveImpactAmount) ∧
-    m₁.primary.short = m.primary.short + (t.short.netAmount + t.short.fees.pool + t.long.positiveImpactAmount) := by
-  have f := deposit_spec hd
-  obtain ⟨mL, mS, fl, fl0, fs, fs0, hm, _⟩ := f.sides
-  have hL : mL = { m with primary := mL.primary, swapImpact := mL.swapImpact, fee := mL.fee, viSwaps := mL.viSwaps } ∧
-      mL.primary.long = m.primary.long + (t.long.netAmount + t.long.fees.pool) ∧
-      mL.primary.short = m.primary.short + t.long.positiveImpactAmount := by
-    by_cases hz : d.long = 0
-    · obtain ⟨e1, e2⟩ := fl0 hz; rw [e1, e2]; exact ⟨rfl, rfl, rfl⟩
-    · have g := fl hz
-      have a := g.liq_same; have b := g.liq_opp
-      simp only [Pool.amount, if_true, Bool.not_true, Bool.false_eq_true, if_false] at a b
-      exact ⟨g.frame, by omega, b⟩
-  have hS : mS = { mL with primary := mS.primary, swapImpact := mS.swapImpact, fee := mS.fee, viSwaps := mS.viSwaps } ∧
-      mS.primary.short = mL.primary.short + (t.short.netAmount + t.short.fees.pool) ∧
-      mS.primary.long = mL.primary.long + t.short.positiveImpactAmount := by
-    by_cases hz : d.short = 0
-    · obtain ⟨e1, e2⟩ := fs0 hz; rw [e1, e2]; exact ⟨rfl, rfl, rfl⟩
-    · have g := fs hz
-      have a := g.liq_same; have b := g.liq_opp
-      simp only [Pool.amount, Bool.false_eq_true, if_false, Bool.not_false, if_true] at a b
-      exact ⟨g.frame, by omega, b⟩
-  refine ⟨?_, ?_, ?_⟩
-  · rw [hm, hS.1, hL.1]
-  · rw [hm]; show mS.primary.long = _; omega
-  · rw [hm]; show mS.primary.short = _; omega
+    m₁.primary.short = m.primary.short + (t.short.netAmount + t.short.fees.pool + t.long.positiveImpactAmount) :=
+  Lem.deposit_frame hd
 
 /-- without open interest (no positions) and with well-formed prices (`min ≤ max` for the index,
 long and short tokens), the pool value the withdrawal sees is at most the pool value the deposit
@@ -697,6 +654,26 @@ theorem postcheck_rejects_between_caps_witness :
         | (_, .error e) => some (t.report.minted, t.poolValue, e)
         | _ => none)
      | _ => none) = some (1851, 216000, MErr.pnlFactor) := by decide +kernel
+
+/-- what "fresh borrowing clock" means: `passed_in_seconds` SATURATES, so the hypothesis `fresh` of the
+open-position theorems holds exactly when the clock was never set, is at `now`, or is AHEAD of `now`
+(the real code behaves the same: replayed through the `setclock` op of the `mkt` / `mlp` engines). In all
+three cases the pending borrowing fees do not depend on the borrowing factor per second (`tpbf_fresh`). -/
+theorem fresh_clock_cases (m : Market) :
+    passedInSeconds m.now m.clockBorrowing = 0 ↔
+      m.clockBorrowing = none ∨ ∃ c, m.clockBorrowing = some c ∧ m.now ≤ c :=
+  passedInSeconds_eq_zero_iff _ _
+
+/-- borrowing clock 490 s AHEAD of `now`, open interest and an accrued cumulative factor: the pending
+fees are the same for a borrowing factor per second of 0 and of 10⁶ (and not zero: 84 000 · 0.5 = 42 000). -/
+example : totalPendingBorrowingFees 64 1000000000
+      { mBand with now := 10, clockBorrowing := some 500, borrowingFactor := ⟨500000000, 0⟩ } true 1000000 = some 42000 ∧
+    totalPendingBorrowingFees 64 1000000000
+      { mBand with now := 10, clockBorrowing := some 500, borrowingFactor := ⟨500000000, 0⟩ } true 0 = some 42000 ∧
+    -- … whereas 490 s BEHIND it matters
+    totalPendingBorrowingFees 64 1000000000
+      { mBand with now := 500, clockBorrowing := some 10, borrowingFactor := ⟨500000000, 0⟩ } true 1000000 = some 83160 := by
+  decide +kernel
 
 /-! ### Non-vacuity -/
 /-- first deposit into the empty market: 1 USD per token, minted = 3·1 + 2·1 (amount units). -/
